@@ -14,7 +14,7 @@ ATOMIC.timer-post  : (open finding) the timer thread's "still running?" test and
 import ast
 
 from sa.model import AnalysisError, walk_shallow, dotted, norm
-from sa.util import cfg_of, guarded_by_edge, shallow_calls
+from sa.util import cfg_of, guarded_by_edge, shallow_calls, expand_locals, strip_not
 from sa import ident, queues
 from sa.context import callgraph
 
@@ -50,21 +50,29 @@ def check(run, model, tier):
         # ---- the match test
         matches = []
         for t in g.nodes:
-            if t.kind == 'test' and isinstance(t.ast, ast.Compare) and len(t.ast.ops) == 1:
-                l, r = t.ast.left, t.ast.comparators[0]
+            if t.kind != 'test':
+                continue
+            xa, xpol = strip_not(expand_locals(t.ast, f.node, params=f.params))
+            if isinstance(xa, ast.Compare) and len(xa.ops) == 1:
+                l, r = xa.left, xa.comparators[0]
                 if any(isinstance(x, ast.Attribute) and x.attr == field for x in (l, r)) or (field == 'uuid' and any(isinstance(x, ast.Name) and x.id == f.params[1] for x in (l, r))):
-                    matches.append(t)
+                    matches.append((t, xa, xpol))
         if len(matches) != 1:
             raise AnalysisError('%s: the match test on %s was not found' % (nm, field))
-        mt = matches[0]
-        op = type(mt.ast.ops[0])
+        mt, mta, mpol = matches[0]
+        op = type(mta.ops[0])
+        if op in (ast.NotEq, ast.IsNot):
+            # `a != b` guards the unmatched branch: same as `not (a == b)`
+            op = {ast.NotEq: ast.Eq, ast.IsNot: ast.Is}[op]
+            mpol = not mpol
+        M_TRUE, M_FALSE = ('true', 'false') if mpol else ('false', 'true')
         ok = op in (ast.Eq,)
         run.inst('IDENT.cancel-match', f, 'match on %s uses ==' % field, ok,
                  '' if ok else ('%s matches the tracked %s with `%s`: an equal %s that is a different object (rebuilt from text, received over a network, or '
                                 'any str not interned) matches nothing, the source keeps posting' % (nm, field, {ast.Is: 'is', ast.IsNot: 'is not', ast.NotEq: '!='}.get(op, '?'), field)),
                  node=mt.ast, obligation=True)
         # the compared sides: tracked record field vs the caller's argument
-        l, r = mt.ast.left, mt.ast.comparators[0]
+        l, r = mta.left, mta.comparators[0]
         sides = sorted([norm(l), norm(r)])
         arg_side = [x for x in (l, r) if any(isinstance(y, ast.Name) and y.id == f.params[1] for y in ast.walk(x))]
         run.inst('IDENT.cancel-match', f, 'compares the record with the caller\'s argument', len(arg_side) == 1, 'match does not involve the argument: %s' % sides, node=mt.ast, obligation=True)
@@ -73,12 +81,12 @@ def check(run, model, tier):
         if len(heads) != 1:
             raise AnalysisError('%s: expected one for-loop scan' % nm)
         h = heads[0]
-        it = norm(h.stmt.iter)
+        it = norm(expand_locals(h.stmt.iter, f.node, params=f.params))
         ok = it in ('reversed(range(len(%s)))' % track, 'range(len(%s))' % track)
         run.inst('SCAN.visit-once', f, 'runs len(tracked) iterations', ok,
                  '' if ok else 'the scan iterates %s, not once per tracked source' % it, node=h.stmt, obligation=True)
-        pops = queues.ops_on(g, track, {'pop', 'popleft'})
-        rots = queues.ops_on(g, track, {'rotate'})
+        pops = queues.ops_on(g, track, {'pop', 'popleft'}, fnode=f.node)
+        rots = queues.ops_on(g, track, {'rotate'}, fnode=f.node)
         body_start = [m for m, l2 in g.succ[h] if l2 == 'iter'][0]
         nodes = [n for n, c, m in pops + rots]
         # per iteration (to the loop head or out through a break): exactly one of pop/rotate
@@ -87,17 +95,17 @@ def check(run, model, tier):
         run.inst('SCAN.visit-once', f, 'each iteration does exactly one of pop()/rotate(1)', ok,
                  '' if ok else 'an iteration of the scan performs %s pop/rotate operations: tracked sources are skipped or inspected twice' % (cnt_back,), obligation=True)
         for n, c, m in pops:
-            ok = m == 'pop' and not c.args and guarded_by_edge(g, n, mt, 'true')
+            ok = m == 'pop' and not c.args and guarded_by_edge(g, n, mt, M_TRUE)
             run.inst('SCAN.visit-once', f, 'pop() drops the inspected (right-most) record on a match', ok, 'pop is %s / not on the matched branch' % norm(c), node=c, obligation=True)
         for n, c, m in rots:
-            ok = len(c.args) == 1 and isinstance(c.args[0], ast.Constant) and c.args[0].value == 1 and guarded_by_edge(g, n, mt, 'false')
+            ok = len(c.args) == 1 and isinstance(c.args[0], ast.Constant) and c.args[0].value == 1 and guarded_by_edge(g, n, mt, M_FALSE)
             run.inst('SCAN.visit-once', f, 'rotate(1) keeps an unmatched record', ok, 'rotate is %s / not on the unmatched branch' % norm(c), node=c, obligation=True)
-        insp = [s for s in walk_shallow(f.node) if isinstance(s, ast.Subscript) and dotted(s.value) == track]
+        insp = [s for s in walk_shallow(f.node) if isinstance(s, ast.Subscript) and dotted(expand_locals(s.value, f.node, params=f.params)) == track]
         ok = bool(insp) and all(isinstance(s.slice, ast.UnaryOp) and isinstance(s.slice.op, ast.USub) and isinstance(s.slice.operand, ast.Constant) and s.slice.operand.value == 1 for s in insp)
         run.inst('SCAN.visit-once', f, 'inspects the right-most record [-1]', ok, 'the inspected element is not the one pop()/rotate(1) acts on', obligation=True)
         brks = [n for n in g.loop_body(h) | set(g.nodes) if n.kind == 'stmt' and isinstance(n.ast, ast.Break)]
         for b in brks:
-            ok = guarded_by_edge(g, b, mt, 'true')
+            ok = guarded_by_edge(g, b, mt, M_TRUE)
             run.inst('SCAN.visit-once', f, 'leaves the scan early only after a match', ok, 'break on the unmatched branch ends the scan before every source was inspected', node=b.ast, obligation=True)
         if not stops:
             run.inst('SCAN.visit-once', f, 'cancel_events inspects every source (no early exit)', not brks,
@@ -107,12 +115,12 @@ def check(run, model, tier):
                   if isinstance(c.func, ast.Attribute) and c.func.attr == 'clear' and 'task_run_event' in norm(c.func.value)]
         run.floor('%s: run-flag clear sites' % nm, len(clears), 1)
         for n, c in clears:
-            ok = guarded_by_edge(g, n, mt, 'true')
+            ok = guarded_by_edge(g, n, mt, M_TRUE)
             run.inst('SCAN.clear-matched', f, 'run flag cleared only for a matched source', ok,
                      '' if ok else 'a source\'s run flag is cleared without the match test having succeeded: other sources are stopped too', node=c, obligation=True)
-        mcnt = queues.count(g, [n for n, c in clears], start=[m for m, l2 in g.succ[mt] if l2 == 'true'][0], end=h)
+        mcnt = queues.count(g, [n for n, c in clears], start=[m for m, l2 in g.succ[mt] if l2 == M_TRUE][0], end=h)
         if mcnt is None:
-            mcnt = queues.count(g, [n for n, c in clears], start=[m for m, l2 in g.succ[mt] if l2 == 'true'][0])
+            mcnt = queues.count(g, [n for n, c in clears], start=[m for m, l2 in g.succ[mt] if l2 == M_TRUE][0])
         ok = mcnt is not None and mcnt[0] >= 1
         run.inst('SCAN.clear-matched', f, 'a matched source is always stopped', ok, 'a matched record can be dropped without clearing its run flag', obligation=True)
     # ---- CONFINE: the unsynchronised scan is only safe while no other thread of the package touches the tracking deque
